@@ -417,6 +417,10 @@ def check_C14(ctx):
         for pos in range(len(argv) + 1):
             tok = rng.choice(["-h", "--help"])
             a2 = argv[:pos] + [tok] + argv[pos:]
+            # sometimes a second help token further right (beyond a sub-command name, too): the FIRST one decides
+            if rng.random() < 0.3 and pos < len(a2):
+                p2 = rng.randint(pos + 1, len(a2))
+                a2 = a2[:p2] + [rng.choice(["-h", "--help"])] + a2[p2:]
             cases.append({"op": "run", "env": {}, "version": version, "root": root, "argv": a2})
             meta.append(("help", pos, root))
         if version:
